@@ -21,18 +21,22 @@ from . import c07 as C07
 from . import c18 as C18
 
 PROP = "C08"
-RULE = ("(7%: structured 'observational' inputs -- P(y | x) over factual variables, the static part of the proved fragment; 8%: structured 'bichain' inputs -- 3-4 nodes on a chain of bidirected edges, one outcome, two conditions) random ADMGs with 2-5 nodes x pairs (outcome conjunction, non-empty condition conjunction) with disjoint keys drawn "
+RULE = ("(7%: structured 'observational' inputs -- P(y | x) over factual variables, the static part of the two proved fragments; 8%: structured 'bichain' inputs -- 3-4 nodes on a chain of bidirected edges, one outcome, two conditions) random ADMGs with 2-5 nodes x pairs (outcome conjunction, non-empty condition conjunction) with disjoint keys drawn "
         "from <=2 counterfactual worlds plus the factual world (shared/distinct subscripts, x / x' values, "
         "self-interventions); the examples of test_idc_star / Shpitser-Pearl / Tikka and all past witnesses first; a "
         "stream of impossible conditions (violating effectiveness). Every case is run under every order of the worlds and "
         "both orders of the other set-valued iterations. A case is non-trivial when the graph has an edge, some variable "
         "is counterfactual and IDC* got past line 1 (answered, returned Zero, or refused as unidentifiable).")
 ASSUMPTIONS = [
-    "soundness (value = P(outcomes, conditions) / P(conditions)) is PROVED on the fragment InFragmentC (idcstar_sound_fragment: "
-    "factual unstarred outcomes and conditions without a common name, rule 2 applies to no condition, the joint ID* estimand "
-    "marginalises nothing; decided on the real run, tag in_fragment_c; a failure inside it is a VIOLATION keyed "
-    "[IN-FRAGMENT, kind]); outside the fragment soundness and zero-soundness have NO theorem; IDC* inherits the wrong "
-    "answers of ID* (F10) and adds its own (the line-4 exchange ignores the remaining conditions; what remains of F11: "
+    "soundness (value = P(outcomes, conditions) / P(conditions)) is PROVED on two fragments of observational queries (factual "
+    "unstarred outcomes and conditions without a common name): InFragmentC (idcstar_sound_fragment: rule 2 applies to no condition, "
+    "the joint ID* estimand marginalises nothing) and InFragmentX (idcstar_sound_fragment_exchange: ONE condition, rule 2 applies to "
+    "it, every outcome descends from it or none does; rule 2 of the do-calculus is proved for functional SCMs on the noise space, no "
+    "positivity of kernels is assumed, only P(condition) > 0); both are decided on the real run (tags in_fragment_c / in_fragment_x) "
+    "AND by the model (driver op idc_star_checked), the two verdicts are part of the correspondence; a failure inside a fragment is a "
+    "VIOLATION keyed [IN-FRAGMENT(-X), kind], never a known finding.",
+    "outside the two fragments soundness and zero-soundness have NO theorem; IDC* inherits the wrong "
+    "answers of ID* (F10) and adds its own (an exchange made while other conditions remain ignores them; what remains of F11: "
     "Expression.conditional also normalises over the variables bound by inner sums of the ID* estimand -- the subscript part of "
     "F11 is repaired by `fix:` a54a0f5): decided by correspondence + exact "
     "evaluation on 8 sampled functional SCMs per case; the known wrong answers are listed in known_findings.jsonl",
@@ -45,19 +49,24 @@ ASSUMPTIONS = [
     "in get_new_outcomes_and_conditions decide which condition is exchanged first); the model takes that order as the "
     "parameter kordf, the harness drives the real code through both orders and judges every distinct answer",
     "termination of the model is by fuel (2(|outcomes|+|conditions|) + |V| + 4): the inner ID* calls terminate by theorem "
-    "(C07 idstar_never_out_of_fuel); IDC*'s own line-4 recursion terminates by theorem with the explicit bound |conditions| + 1 "
-    "on every input in which no variable NAME occurs both among the outcomes and among the conditions "
-    "(idcstar_own_recursion_terminates / idcstar_bound_suffices; idcStarO = the model with its own fuel exhaustion observable, "
-    "idcstar_model_is_idcStarO). OPEN when an outcome and a condition are copies of one variable: |conditions| can grow there "
-    "(the re-association puts merged keys into both dicts, an exchange can split a shared key), no measure is proved and no "
-    "looping input is known (95 000 random inputs incl. shared names / shared keys / 5 worlds: depth <= |conditions| + 1); it is "
-    "checked on every generated input (an exhausted fuel would be a correspondence disagreement, a RecursionError of the real "
-    "code a crash = VIOLATION); the division `e / d` is modelled for the operands IDC* can produce (an ID* estimand is never a Fraction)",
+    "(C07 idstar_never_out_of_fuel); IDC*'s own line-4 recursion terminates by theorem (i) with the explicit bound |conditions| + 1 "
+    "when no variable NAME occurs both among the outcomes and among the conditions (idcstar_own_recursion_terminates / "
+    "idcstar_bound_suffices) and (ii) WITHOUT an explicit bound on every input without self-intervened keys, shared names allowed "
+    "(idcstar_terminates_shared_names: lexicographic measure (#outcome names, #conditions named like no outcome); rule 2 never "
+    "accepts a condition that is a copy of an outcome variable); tag termination_theorem_applies, also computed by the model "
+    "(idcInvB / disjointNamesB) and compared. OPEN: an explicit bound in case (ii) -- the model's fuel bound is not proved sufficient "
+    "there (the re-association can add conditions, even at later levels) -- and inputs with a self-intervened key AND a shared name "
+    "(about 9% of the generated inputs): no measure is known; no input deeper than |conditions| + 1 is known (exhaustive over two "
+    "variables: 1 336 608 inputs; > 10 million random inputs, harness/props/c08_termsearch.py); it is checked on every generated "
+    "input (an exhausted fuel would be a correspondence disagreement, a RecursionError of the real code a crash = VIOLATION); the "
+    "division `e / d` is modelled for the operands IDC* can produce (an ID* estimand is never a Fraction)",
     "pairs in which the same counterfactual variable V_S occurs both as an outcome and as a condition are left out of the "
     "checked domain (idc_star merges the two dicts, the condition's value silently wins)",
     "a wrong value / wrong Zero is classified by the FIRST step of IDC*'s own chain of claims that an independent exact "
     "evaluation shows to be broken on that input: 'reassociation' (get_new_outcomes_and_conditions changes "
-    "P(outcomes | conditions)), 'exchange' (the line-4 exchange changes it), 'inherited' (the final id_star call is wrong by "
+    "P(outcomes | conditions); only for events with a counterfactual world), 'exchange' (the line-4 exchange changes it; only listed "
+    "when the exchanging level has at least two conditions -- with a single condition it is the unlisted kind "
+    "'exchange-with-a-single-condition:...', i.e. a VIOLATION), 'inherited' (the final id_star call is wrong by "
     "itself: keyed by the C07 finding it shrinks to), 'F11' (numerator right, every name Expression.conditional wrongly "
     "normalises over is BOUND by a sum inside the numerator; confirmed by evaluating the repaired fraction; a wrong "
     "normaliser that contains a subscript-only name is the repaired part of F11 and is reported as the unlisted kind "
@@ -86,6 +95,15 @@ CORPUS = [
     {"g": {"nodes": [0, 1], "di": [[0, 1]], "bi": []}, "outcomes": [[v(1), "m"]], "conditions": [[v(0, [(0, "m")]), "m"]]},
     # impossible outcome, possible condition
     {"g": {"nodes": [0, 1], "di": [[0, 1]], "bi": []}, "outcomes": [[v(0, [(0, "m")]), "p"]], "conditions": [[v(1), "m"]]},
+    # the exchange fragment (idcstar_sound_fragment_exchange): W -> X -> Y, P(y | x); two outcomes below X; no outcome below X
+    {"g": {"nodes": [0, 1, 2], "di": [[2, 0], [0, 1]], "bi": []}, "outcomes": [[v(1), "m"]], "conditions": [[v(0), "m"]]},
+    {"g": {"nodes": [0, 1, 2], "di": [[0, 1], [1, 2]], "bi": []}, "outcomes": [[v(1), "m"], [v(2), "m"]], "conditions": [[v(0), "m"]]},
+    {"g": {"nodes": [0, 1, 2, 3], "di": [[2, 0], [3, 1]], "bi": []}, "outcomes": [[v(1), "m"]], "conditions": [[v(0), "m"]]},
+    # termination with shared names (idcstar_terminates_shared_names): the re-association ADDS a condition at the second level
+    # (A->D, B->D, C->D, B->Y, C->Y; outcomes D_b, D_c, Y_b; conditions A, Y_c)
+    {"g": {"nodes": [0, 1, 2, 3, 4], "di": [[0, 3], [1, 3], [2, 3], [1, 4], [2, 4]], "bi": []},
+     "outcomes": [[v(3, [(1, "m")]), "m"], [v(3, [(2, "m")]), "m"], [v(4, [(1, "m")]), "m"]],
+     "conditions": [[v(0), "m"], [v(4, [(2, "m")]), "m"]]},
 ]
 
 
@@ -355,7 +373,11 @@ def _explain(case, strategy, n_models):
     for i, lv in enumerate(levels):
         if i < len(reassoc):
             if in_dom(lv) and in_dom(reassoc[i]) and _ratio_differs(g, lv, reassoc[i], seed, n_models):
-                return "reassociation", {"level": i, "before": lv, "after": reassoc[i]}
+                # the listed finding is about keys that the counterfactual graph MERGED (several worlds); a re-association that
+                # changes P(outcomes | conditions) of a single-world event is a different, unlisted defect
+                nw = K.n_worlds(K.sort_event(_union(*lv)))
+                return ("reassociation" if nw >= 1 else "reassociation-in-the-factual-world"), \
+                    {"level": i, "before": lv, "after": reassoc[i]}
             if i + 1 < len(levels) and in_dom(reassoc[i]) and in_dom(levels[i + 1]) and \
                     _ratio_differs(g, reassoc[i], levels[i + 1], seed, n_models):
                 if _exchange_justified(rec, i) is False:
@@ -363,8 +385,13 @@ def _explain(case, strategy, n_models):
                     # documented test (recomputed independently) does not license is a different, unlisted defect
                     return "exchange:not-licensed-by-documented-test", \
                         {"level": i, "before": reassoc[i], "after": levels[i + 1]}
-                return _exchange_kind(g, reassoc[i], levels[i + 1], seed, n_models), \
-                    {"level": i, "before": reassoc[i], "after": levels[i + 1]}
+                kind = _exchange_kind(g, reassoc[i], levels[i + 1], seed, n_models)
+                if len(reassoc[i][1]) < 2:
+                    # both listed exchange findings are about the OTHER conditions (not re-subscripted / ignored by the
+                    # separation test); with a single condition at the exchanging level neither explanation is available
+                    # (and on factual inputs the step is proved: idcstar_sound_fragment_exchange): an unlisted defect
+                    kind = "exchange-with-a-single-condition:" + kind
+                return kind, {"level": i, "before": reassoc[i], "after": levels[i + 1]}
     calls = [c for c in rec.get("id_star", []) if "_number_recursions" in c[1]]
     if calls and isinstance(calls[-1][2], Expression):
         event, _, est = calls[-1]
@@ -570,6 +597,38 @@ def _est_names(e):
     return out
 
 
+def termination_theorem_applies(case):
+    """the static hypotheses of one of the two termination theorems of Props/C08.lean hold:
+    idcstar_own_recursion_terminates -- no variable NAME occurs both among the outcomes and among the conditions; or
+    idcstar_terminates_shared_names  -- (IdcInv) no key is self-intervened, subscript sets are consistent, variables of the graph"""
+    outs, conds = case["outcomes"], case["conditions"]
+    on, cn = {int(v_[1]) for v_, _ in outs}, {int(v_[1]) for v_, _ in conds}
+    if len({C.enc(v_) for v_, _ in conds}) == len(conds) and not (on & cn):
+        return True
+    if len({C.enc(v_) for v_, _ in outs}) != len(outs) or len({C.enc(v_) for v_, _ in conds}) != len(conds):
+        return False
+    nodes = set(G.all_nodes(case["g"]))
+    for var, val in outs + conds:
+        names = [int(n) for n, _ in var[4]]
+        if str(var[2]) != "n" or str(var[3]) != "0" or int(var[1]) not in nodes or len(set(names)) != len(names) \
+                or int(var[1]) in names or not isinstance(val, str):
+            return False
+    return True
+
+
+def _static_fragment(case):
+    """the static part shared by the two proved fragments: factual variables of the graph, unstarred values, no name on both sides"""
+    outs, conds = case["outcomes"], case["conditions"]
+    if not outs or not conds or case.get("malformed"):
+        return False
+    nodes = set(G.all_nodes(case["g"]))
+    for var, val in outs + conds:
+        if var[4] or str(var[2]) != "n" or str(var[3]) != "0" or val != "m" or int(var[1]) not in nodes:
+            return False
+    on, cn = [int(v_[1]) for v_, _ in outs], [int(v_[1]) for v_, _ in conds]
+    return len(set(on)) == len(on) and len(set(cn)) == len(cn) and not (set(on) & set(cn))
+
+
 def in_fragment_c(case):
     """The fragment of Props/C08.lean `InFragmentC` (theorem idcstar_sound_fragment), decided on the REAL run:
     static  -- outcomes / conditions are dicts of factual variables of the graph, unstarred values, no name on both sides,
@@ -598,6 +657,36 @@ def in_fragment_c(case):
         return False       # ID* refused or failed on the joint event: IDC* returns no expression
     est = K.canon_expr(E.to_str_tree(E.enc_expr(calls[-1][2])))
     return _est_names(est) == set(on) | set(cn)
+
+
+def in_fragment_x(case):
+    """The EXCHANGE fragment of Props/C08.lean `InFragmentX` (theorem idcstar_sound_fragment_exchange), decided on the REAL run:
+    static  -- as in_fragment_c, with at least one outcome and exactly ONE condition X = x;
+    dynamic -- line 4 recursed exactly once (rule 2 applied to X), the recursive call has NO condition and its outcomes are
+               either exactly the Y_x of the original outcomes Y (every outcome descends from X) or exactly the original
+               outcomes (none descends from X).
+    Inside it IDC* is PROVED to return P(outcomes, X = x) / P(X = x) in every compatible functional SCM with P(X = x) > 0
+    (rule 2 of the do-calculus on the noise space, no positivity assumption): a failure there is a VIOLATION."""
+    outs, conds = case["outcomes"], case["conditions"]
+    if not outs or len(conds) != 1 or case.get("malformed"):
+        return False
+    nodes = set(G.all_nodes(case["g"]))
+    for var, val in outs + conds:
+        if var[4] or str(var[2]) != "n" or str(var[3]) != "0" or val != "m" or int(var[1]) not in nodes:
+            return False
+    on, x = [int(v_[1]) for v_, _ in outs], int(conds[0][0][1])
+    if len(set(on)) != len(on) or x in on:
+        return False
+    rec = {}
+    res, _ = _run_real(case, K.id_strategies(joint(case))[0], record=rec)
+    levels = rec.get("levels", [])
+    if len(levels) != 2 or res[0] == "err":
+        return False
+    want = K.sort_event([[K.mkvar(int(v_[1]), [(x, "m")]), val] for v_, val in outs])
+    o2, c2 = K.sort_event(K.enc_event(levels[1][0])), K.enc_event(levels[1][1])
+    canon = lambda ev: sorted(json.dumps([K.canon_var(v_), str(val)]) for v_, val in ev)    # noqa: E731
+    same = K.sort_event([[K.mkvar(int(v_[1])), val] for v_, val in outs])
+    return not c2 and canon(o2) in (canon(want), canon(same))
 
 
 COARSE = ("F11", "normalisation:subscript", "inherited", "reassociation", "exchange:polarity", "exchange:conditions", "exchange:separation",
@@ -639,6 +728,7 @@ def run_python(case):
     r = _evaluate(case, all_verdicts=True)
     by_order = r["by_order"]
     frag = bool(r["in_domain"]) and in_fragment_c(case)
+    fragx = bool(r["in_domain"]) and not frag and in_fragment_x(case)
     distinct = []
     for x in by_order:
         if x not in distinct:
@@ -660,12 +750,21 @@ def run_python(case):
             "order_dependent_verdict": r["order_verdict"], "gen": case.get("gen", "random"),
             # Props/C08.lean idcstar_sound_fragment: inside the fragment the answer is proved right
             # Props/C08.lean idcstar_own_recursion_terminates: no name is both an outcome and a condition
-            "termination_theorem_applies": not ({int(v_[1]) for v_, _ in case["outcomes"]} &
-                                                {int(v_[1]) for v_, _ in case["conditions"]}),
-            "in_fragment_c": frag, "in_fragment_c_answered": bool(frag and shape in ("P", "sum", "prod", "frac"))}
+            # Props/C08.lean idcstar_terminates_shared_names: no self-intervened key
+            "termination_theorem_applies": termination_theorem_applies(case),
+            "shared_names": bool({int(v_[1]) for v_, _ in case["outcomes"]} & {int(v_[1]) for v_, _ in case["conditions"]}),
+            "in_fragment_c": frag, "in_fragment_c_answered": bool(frag and shape in ("P", "sum", "prod", "frac")),
+            # Props/C08.lean idcstar_sound_fragment_exchange: one factual condition, exchanged by rule 2
+            "in_fragment_x": fragx, "in_fragment_x_answered": bool(fragx and shape in ("P", "sum", "prod", "frac")),
+            "proved_fragment": "C" if frag else "X" if fragx else "static-only" if _static_fragment(case) else "none"}
     nontrivial = r["in_domain"] and K.n_worlds(jt) >= 1 and bool(case["g"]["di"] or case["g"]["bi"]) and \
         shape in ("P", "sum", "prod", "frac", "unidentifiable", "zero")
-    out = {"out": ["orders", by_order], "fail": r["fail"], "nontrivial": bool(nontrivial), "tags": tags}
+    answered = first[0] == "ok"
+    # the model's own verdict on the two proved fragments (driver op idc_star_checked) must agree with the classification of
+    # the REAL run whenever IDC* answered: part of the correspondence
+    out = {"out": ["orders", by_order, ["frag", bool(frag and answered), bool(fragx and answered),
+                                        termination_theorem_applies(case)]], "fail": r["fail"],
+           "nontrivial": bool(nontrivial), "tags": tags}
     if r["fail"] and r["order_verdict"] == "mixed":
         out["fail"] += (" [the answer depends on the iteration order of a Python set (PYTHONHASHSEED): under another order "
                         "idc_star returns a CORRECT answer; verdict per distinct answer: %s]" % r["verdicts"])
@@ -673,6 +772,10 @@ def run_python(case):
         # a theorem says this cannot happen: never a known finding
         out["fail"] += " [INSIDE the fragment of idcstar_sound_fragment (Props/C08.lean): the answer is proved correct there]"
         out["finding_key"] = json.dumps(["IN-FRAGMENT", r["kind"]])
+    elif r["fail"] and fragx:
+        out["fail"] += (" [INSIDE the exchange fragment of idcstar_sound_fragment_exchange (Props/C08.lean): the answer is proved "
+                        "correct there]")
+        out["finding_key"] = json.dumps(["IN-FRAGMENT-X", r["kind"]])
     elif r["fail"] and r["kind"] in COARSE:
         ck = _coarse_key(case, r)
         if r["order_verdict"] == "mixed":
@@ -694,7 +797,7 @@ def run_python(case):
 def request(case):
     g = case["g"]
     gs = C.graph_sexp(g["nodes"], g["di"], g["bi"])
-    return C.enc(["cf", "idc_star_all", gs, case["outcomes"], case["conditions"], [list(s) for s in K.id_strategies(joint(case))]])
+    return C.enc(["cf", "idc_star_checked", gs, case["outcomes"], case["conditions"], [list(s) for s in K.id_strategies(joint(case))]])
 
 
 def _canon_one(rep):
@@ -708,9 +811,12 @@ def _canon_one(rep):
 
 
 def canon_model(case, rep):
-    if rep[0] != "ok":
+    if rep[0] != "ok" or len(rep) < 3 or rep[1][0] != "frag":
         return ["model-error", rep]
-    return ["orders", [_canon_one(r) for r in rep[1:]]]
+    res = [_canon_one(r) for r in rep[2:]]
+    answered = res[0][0] == "ok"
+    return ["orders", res, ["frag", bool(str(rep[1][1]) == "1" and answered), bool(str(rep[1][2]) == "1" and answered),
+                            str(rep[1][3]) == "1"]]
 
 
 def shrink(case):
@@ -728,6 +834,8 @@ def finding_key(case, res):
     r = _evaluate(case)
     if r["fail"] and r["in_domain"] and in_fragment_c(case):
         return json.dumps(["IN-FRAGMENT", r["kind"]])
+    if r["fail"] and r["in_domain"] and in_fragment_x(case):
+        return json.dumps(["IN-FRAGMENT-X", r["kind"]])
     return _coarse_key(case, r) or SHRINK.key_of(case, r["kind"])
 
 
@@ -736,7 +844,7 @@ MANIFEST = {
              "(ValueError) every condition for which ID* answers Zero, in particular every condition that violates "
              "effectiveness, before doing anything else; the model is defined for every fuel, an answer reached with some fuel "
              "is not changed by more fuel; every leaf of a returned estimand is a single-world interventional term (C06 part); "
-             "Zero from line 3 (inconsistent joint event) is sound in every compatible functional SCM (by C18's cg_prob); the final division is fully modelled; the line-4 recursion terminates within |conditions| + 1 levels when no name is both an outcome and a condition (idcstar_own_recursion_terminates); the returned value EQUALS P(outcomes, conditions)/P(conditions) in every compatible functional SCM on the observational no-exchange fragment (idcstar_sound_fragment, via idstar_sound_fragment, the repaired conditional and marginalisation). Outside that fragment soundness of the returned value and of Zero from inside ID* has NO theorem (it inherits F10 from "
+             "Zero from line 3 (inconsistent joint event) is sound in every compatible functional SCM (by C18's cg_prob); the final division is fully modelled; the line-4 recursion terminates within |conditions| + 1 levels when no name is both an outcome and a condition (idcstar_own_recursion_terminates) and, without an explicit bound, on every input without self-intervened keys even when outcomes and conditions are copies of the same variables (idcstar_terminates_shared_names); the returned value EQUALS P(outcomes, conditions)/P(conditions) in every compatible functional SCM on the observational no-exchange fragment (idcstar_sound_fragment, via idstar_sound_fragment, the repaired conditional and marginalisation) and on the exchange fragment (idcstar_sound_fragment_exchange: one factual condition to which rule 2 applies, all or no outcomes descending from it; rule 2 of the do-calculus proved for functional SCMs on the noise space, no positivity assumption). Outside these fragments soundness of the returned value and of Zero from inside ID* has NO theorem (it inherits F10 from "
              "ID* and adds the bound-range part of F11 and an exchange step that ignores the other conditions); the check decides it by correspondence with the real "
              "code plus exact evaluation of P(outcomes, conditions)/P(conditions) on sampled functional SCMs; every wrong answer is "
              "attributed to the first step of IDC*'s chain of claims that exact evaluation shows to be broken (reassociation, "
@@ -745,5 +853,5 @@ MANIFEST = {
     "note": ("Trusted: Lean kernel + standard axioms; hand-written models (ID*, counterfactual graph, d-separation of the sep "
              "family, Expression.conditional) tied to the code by differential testing under all set-iteration orders; the "
              "reading convention of estimands; sampled models (8 per case, P(conditions) > 0)."),
-    "technique": "Lean 4 theorems (rejection of impossible conditions, vocabulary invariant, fuel monotonicity) + differential correspondence + exact-rational functional-SCM oracle + shrunk known findings",
+    "technique": "Lean 4 theorems (rejection of impossible conditions, soundness on two named fragments incl. rule 2 for functional SCMs, termination of the line-4 recursion, vocabulary invariant) + differential correspondence (answers and fragment / termination-hypothesis verdicts) + exact-rational functional-SCM oracle + shrunk known findings",
 }
